@@ -145,33 +145,46 @@ def rule_alpha(E, R):
     # `$` required
     ex = [c for c in calls(body, r"^lex::expect$") if lit_value(c["args"][1]) == "$"]
     R.check(len(ex) >= 1, rule, fn, "`$` is required (expect(input, \"$\")?)", where=h["span"])
-    # an empty name is rejected for both ways the scan can stop (a foreign character, end of input)
-    empties = 0
-    for i in exprs(body, "If"):
-        if any(c["m"] == "is_empty" and local_name(c["recv"]) == acc for c in exprs(i["cond"], "MethodCall")) and explicit_err_returns(i["then"]):
-            empties += 1
-    for m in exprs(body, "Match"):
-        for a in m["arms"]:
-            if "guard" in a and any(c["m"] == "is_empty" and local_name(c["recv"]) == acc for c in exprs(a["guard"], "MethodCall")) and \
-                    explicit_err_returns(a["body"]):
-                empties += 1
-    n_break = len([b_ for b_ in exprs(body, "Break") if not b_.get("x")])
-    R.check((empties >= 2 and n_break >= 1) or (scanned and n_break == 0 and empties >= 1), rule, fn, "an empty name is rejected whether the scan stops at a foreign character or at the end of input",
-            "%d `is_empty() -> Err` guards for %d loop exits" % (empties, n_break), h["span"])
-    # leading / trailing dot
-    dot = False
-    for i in exprs(body, "If"):
-        if not explicit_err_returns(i["then"]) or not any(o == "Or" for o in binops(i["cond"])):
-            continue
-        # the condition, with locals that merely name one of its operands expanded
-        parts = [i["cond"]] + [let_init(body, local_name(p_)) for p_ in exprs(i["cond"], "Path")
-                               if local_name(p_) and let_init(body, local_name(p_)) is not None]
-        ms = {c["m"] for q_ in parts for c in exprs(q_, "MethodCall")}
-        lits = [lit_value(x) for q_ in parts for x in exprs(q_, ("Lit", "Path")) if lit_value(x) is not None]
-        if {"first", "last"} <= ms and lits.count(46) >= 2:
-            dot = True
-        if {"starts_with", "ends_with"} <= ms and lits.count(".") >= 2:
-            dot = True
+    # an empty name is rejected for both ways the scan can stop (a foreign character, end of input): read from the path
+    # conditions - every way out of the scanning loop is taken with a non-empty name, and an empty one leads to Err
+    S = sem.Sem(E, h)
+    sites = S.sites()
+
+    def empty_pol(x):
+        for a_, pol in sem.literals(x.pc)[0]:
+            n_ = sem.peel(a_.node) if a_.kind == "call" and a_.node is not None else {}
+            if n_.get("k") == "MethodCall" and n_["m"] == "is_empty":
+                b_ = sem.root_local(S, n_["recv"], a_.frame)
+                if b_ is not None and b_.name == acc:
+                    return pol
+        return None
+    leaves = S.result_leaves()
+    errs = [x for x in leaves if sem.ctor_head(x.node) == "Result::Err"]
+    oks = [x for x in leaves if sem.ctor_head(x.node) == "Result::Ok"]
+    empties = len([x for x in errs if empty_pol(x) is True])
+    breaks = [x for x in sites if x.node.get("k") == "Break" and not x.node.get("x") and not x.in_closure]
+    n_break = len(breaks)
+    exits_ok = all(empty_pol(x) is False for x in breaks)
+    R.check((empties >= 1 and n_break >= 1 and exits_ok) or (scanned and n_break == 0 and empties >= 1), rule, fn,
+            "an empty name is rejected whether the scan stops at a foreign character or at the end of input",
+            "%d `is_empty() -> Err` returns; %d loop exits, all taken with a non-empty name: %s" % (empties, n_break, exits_ok), h["span"])
+    # leading / trailing dot: the accepting return is reached only when neither end of the name is a `.`
+    def ends_tested(x):
+        seen = set()
+        lits_, _ = sem.literals(x.pc)
+        for a_, pol in lits_:
+            if pol:
+                continue
+            nodes = [a_.node] if a_.kind in ("call", "opaque") else ([a_.l.node, a_.r.node] if a_.kind == "cmp" and a_.op == "Eq" else [])
+            ms = {c["m"] for n_ in nodes if n_ is not None for c in exprs(n_, "MethodCall")}
+            ls = [lit_value(y) for n_ in nodes if n_ is not None for y in exprs(n_, ("Lit", "Path")) if lit_value(y) is not None]
+            if 46 in ls or "." in ls:
+                if ms & {"first", "starts_with"}:
+                    seen.add("first")
+                if ms & {"last", "ends_with"}:
+                    seen.add("last")
+        return seen
+    dot = bool(oks) and all(ends_tested(x) == {"first", "last"} for x in oks)
     R.check(dot, rule, fn, "a leading or trailing `.` is rejected", where=h["span"])
 
 
